@@ -137,13 +137,20 @@ def cond_paths(test: ast.expr) -> List[Tuple[Tuple[Tuple[ast.expr, bool], ...], 
 # Set once per run by core.Ctx: helpers that are not part of the pinned function inventory are inlined, so that the
 # path rules see through "extract method" refactorings; the pinned functions keep their summaries.
 DEFAULT_INLINE: List[Optional[Callable]] = [None]
+# The protocol rules look at one concrete protocol class at a time (for ci in proto_classes(ctx)); while they do, this
+# holds that class, and every path enumerated for a method that class inherits resolves self.<hook>() to its override.
+CURRENT_SELF_CLS: List[Optional[ClassInfo]] = [None]
 MAX_INLINE_DEPTH = 4
 
 
 class Enumerator:
     def __init__(self, prog: Program, fn: FuncInfo, oracle: Oracle = no_raise, unroll: int = 2,
-                 max_paths: int = 50000, inline="default"):
+                 max_paths: int = 50000, inline="default", self_cls=None):
         self.prog, self.fn, self.oracle = prog, fn, oracle
+        if self_cls is None and CURRENT_SELF_CLS[0] is not None and fn.cls is not None and not fn.is_lambda \
+                and prog.is_subclass(CURRENT_SELF_CLS[0], fn.cls):
+            self_cls = CURRENT_SELF_CLS[0]
+        self.self_cls = self_cls      # concrete class of 'self' for this activation (None: any class inheriting fn)
         self.unroll = unroll
         self.max_paths = max_paths
         self._count = 0
@@ -158,16 +165,22 @@ class Enumerator:
         stack = hctx.get("__stack__", (self.fn.qualname,))
         if len(stack) > MAX_INLINE_DEPTH:
             return None
-        g = self.inline(n, self._fn(hctx))
+        g = self.inline(n, self._fn(hctx), hctx.get("__selfcls__", self.self_cls))
         if g is None or g.qualname in stack:
             return None
         return g
 
+    def _frame_ctx(self, call: ast.Call, g: FuncInfo, hctx: dict) -> dict:
+        stack = hctx.get("__stack__", (self.fn.qualname,))
+        same_self = isinstance(call.func, ast.Attribute) and isinstance(call.func.value, ast.Name) and call.func.value.id == "self" \
+            and g.cls is not None and not g.is_static
+        return {"__fn__": g, "__stack__": stack + (g.qualname,),
+                "__selfcls__": hctx.get("__selfcls__", self.self_cls) if same_self else None}
+
     def _inline_body(self, call: ast.Call, g: FuncInfo, evs: Tuple[Ev, ...], hctx: dict):
         """Events of the helper's body between enter / exit markers.  Yields (events, outcome) with outcome
         ('done', return node | None) or ('raise', cls, origin)."""
-        stack = hctx.get("__stack__", (self.fn.qualname,))
-        h2 = {"__fn__": g, "__stack__": stack + (g.qualname,)}
+        h2 = self._frame_ctx(call, g, hctx)
         start = evs + (Ev("enter", call, g),)
         for e2, oc in self._block(g.body, start, h2):
             if oc[0] == "fall":
@@ -241,8 +254,7 @@ class Enumerator:
                 yield e1, oc1
                 continue
             e1 = e1 + (Ev("call", call),)
-            stack = hctx.get("__stack__", (self.fn.qualname,))
-            h2 = {"__fn__": g, "__stack__": stack + (g.qualname,)}
+            h2 = self._frame_ctx(call, g, hctx)
             for e2, oc2 in self._block(g.body, e1 + (Ev("enter", call, g),), h2):
                 tail = (Ev("exit", call, g),) + ((Ev("await", atom),) if isinstance(atom, ast.Await) else ()) + (Ev("test", atom, outcome),)
                 if oc2[0] == "raise":
@@ -485,5 +497,5 @@ class Enumerator:
                 yield from with_finally(e1, oc1)
 
 
-def enumerate_paths(prog: Program, fn: FuncInfo, oracle: Oracle = no_raise, unroll: int = 2) -> List[Path]:
-    return Enumerator(prog, fn, oracle, unroll).paths()
+def enumerate_paths(prog: Program, fn: FuncInfo, oracle: Oracle = no_raise, unroll: int = 2, self_cls=None) -> List[Path]:
+    return Enumerator(prog, fn, oracle, unroll, self_cls=self_cls).paths()
